@@ -10,6 +10,7 @@ import ManifModel.Groups.SE2
 import ManifModel.Groups.SO3
 import ManifModel.Groups.SE3
 import ManifModel.Groups.SE23
+import ManifModel.Groups.SGal3
 import ManifModel.Groups.Rn
 import ManifModel.Algorithms.Interp
 import ManifModel.Algorithms.DeCasteljau
@@ -572,6 +573,76 @@ def runSE23 (dbg : Bool) (op : String) (mask : Nat) (args : List K) (ints : List
     | _, _ => runBase se23Ops se23Codec dbg op mask args ints
   | none, none => runBase se23Ops se23Codec dbg op mask args ints
 
+def sgal3Ops : GroupOps K (SGal3 K) (SGal3T K) (List (List K)) where
+  exp := SGal3T.exp
+  expJ := SGal3T.expJ
+  log := SGal3.log
+  logJ := SGal3.logJ
+  compose := SGal3.compose
+  composeJa := SGal3.composeJa
+  composeJb := SGal3.composeJb
+  inverse := SGal3.inverse
+  inverseJ := SGal3.inverseJ
+  adj := SGal3.adj
+  rjac := SGal3T.rjac
+  ljac := SGal3T.ljac
+  rjacinv := SGal3T.rjacinv
+  ljacinv := SGal3T.ljacinv
+  smallAdj := SGal3T.smallAdj
+  tneg := SGal3T.neg
+  jmul := fun a b => a.map fun row => (List.range 10).map fun j => dotTree row (b.map fun r => r.getD j (nat 0))
+  jneg := RowsMat.neg
+  jone := Rn.identRows 10
+  tzero := ⟨V3.zero, V3.zero, V3.zero, nat 0⟩
+  tadd := fun a b => ⟨a.lin.add b.lin, a.lin2.add b.lin2, a.ang.add b.ang, a.t + b.t⟩
+  tsub := fun a b => ⟨a.lin.sub b.lin, a.lin2.sub b.lin2, a.ang.sub b.ang, a.t - b.t⟩
+  tscale := fun a k => ⟨a.lin.muls k, a.lin2.muls k, a.ang.muls k, a.t * k⟩
+  tsqnorm := fun a => treeSum 11 ((a.toList).map fun x => x * x)
+  tdot := fun a b => dotTree a.toList b.toList
+  jmulT := fun j t =>
+    match (j.map fun row => dotTree row t.toList) with
+    | [a, b, c, d, e, f, g, h, i, k] => ⟨⟨a, b, c⟩, ⟨d, e, f⟩, ⟨g, h, i⟩, k⟩
+    | _ => ⟨V3.zero, V3.zero, V3.zero, nat 0⟩
+  jtr := RowsMat.transpose 10
+
+def sgal3Codec : Codec K (SGal3 K) (SGal3T K) (List (List K)) where
+  rep := 11
+  dof := 10
+  gOf := fun l => match l with
+    | [a, b, c, x, y, z, w, d, e, f, t] => some ⟨⟨a, b, c⟩, ⟨x, y, z, w⟩, ⟨d, e, f⟩, t⟩ | _ => none
+  gTo := SGal3.toList
+  tOf := fun l => match l with
+    | [a, b, c, d, e, f, g, h, i, t] => some ⟨⟨a, b, c⟩, ⟨d, e, f⟩, ⟨g, h, i⟩, t⟩ | _ => none
+  tTo := SGal3T.toList
+  jTo := List.flatten
+  genTable := Generated.SGal3GenTable
+
+def runSGal3 (dbg : Bool) (op : String) (mask : Nat) (args : List K) (ints : List Int) :
+    Option (Except Err (List K)) :=
+  let w0 := mask % 2 == 1
+  let w1 := (mask / 2) % 2 == 1
+  match op, ints with
+  | "generator", [i] => if args.isEmpty then some (genFromTable Generated.SGal3GenTable Generated.SGal3GenErr i) else none
+  | "vee", [] => if args.length == 25 then some (.ok (SGal3T.vee args).toList) else none
+  | _, _ =>
+  match sgal3Codec.gOf (args.take 11), sgal3Codec.tOf (args.take 10) with
+  | some X, _ =>
+    match op, args.drop 11 with
+    | "act", [x, y, z] =>
+        let v : V3 K := ⟨x, y, z⟩
+        some (.ok ((X.act v).toList ++ (if w0 then X.actJm v else []) ++
+          (if w1 then (X.actJv v).toList else [])))
+    | "transform", [] => some (.ok X.transformRows)
+    | "rotation", [] => some (.ok X.rotation.toList)
+    | "normalize", [] => some (.ok X.normalize.toList)
+    | "make", [] => some ((SGal3.make dbg X.p X.q X.v X.t).map SGal3.toList)
+    | _, _ => runBase sgal3Ops sgal3Codec dbg op mask args ints
+  | none, some t =>
+    match op, args.drop 10 with
+    | "hat", [] => some (.ok t.hatRows)
+    | _, _ => runBase sgal3Ops sgal3Codec dbg op mask args ints
+  | none, none => runBase sgal3Ops sgal3Codec dbg op mask args ints
+
 /-- Rn as a record of primitives (used by the algorithms). -/
 def rnOps (n : Nat) : GroupOps K (List K) (List K) (List (List K)) where
   exp := fun _ t => .ok (Rn.exp t)
@@ -676,6 +747,7 @@ def runCanonical (grp : String) (dbg : Bool) (op : String) (mask : Nat) (args : 
   | "SO3" => runSO3 dbg op mask args ints
   | "SE3" => runSE3 dbg op mask args ints
   | "SE_2_3" => runSE23 dbg op mask args ints
+  | "SGal3" => runSGal3 dbg op mask args ints
   | "R1" => runRn 1 dbg op mask args ints
   | "R2" => runRn 2 dbg op mask args ints
   | "R3" => runRn 3 dbg op mask args ints
